@@ -329,9 +329,14 @@ def rule_liveness(ctx: Ctx, prog: Program) -> None:
             for bp in l.paths:
                 if bp.outcome not in ("raise", "return", "break"):
                     continue
-                q = [e for e in bp.events if (e.kind == "mcall" and e.name in LIVE) or (e.kind == "branch" and e.cond is not None and any(
+                q = [i for i, e in enumerate(bp.events) if (e.kind == "mcall" and e.name in LIVE) or (e.kind == "branch" and e.cond is not None and any(
                     isinstance(a, tuple) and any(k in repr(a) for k in ("exitcode", "is_alive", "sentinel")) for a in atoms_in(e.cond)))]
-                if q:
+                if not q:
+                    continue
+                # a return/break that follows a successful queue read made after the liveness query is an ordinary delivery,
+                # not an exit that depends on the workers being dead
+                later_read = any(e.kind == "mcall" and e.name == "get" for e in bp.events[q[0] + 1:])
+                if bp.outcome == "raise" or not later_read:
                     live_exit = True
         for r in p.res:
             if r.outcome == "raise" and any((e.kind == "mcall" and e.name in LIVE) for e in r.events):
